@@ -2,6 +2,8 @@ use core::hash::{BuildHasher, Hash};
 
 use indexmap::IndexMap;
 use itertools::zip_eq;
+#[cfg(cairo_verif)]
+use crate::verif_hash::hashbrown_shadow as hashbrown;
 
 // hashbrown's default hasher (foldhash) rather than std's SipHash. IndexMap/IndexSet iterate in
 // insertion order, so the iteration order -- and thus compilation determinism -- is independent of
